@@ -50,7 +50,7 @@ def gen_plan(rng, tier, index):
         plan['family'] = gen_data_family(rng)
         plan['pre_ops'] = c11.gen_ops(rng, rng.randint(0, 5), weights=[w for w in c11.WEIGHTS if w[0] not in ('array_write_ds', 'average_by', 'measurements_tensor', 'bin_time')])
     else:
-        plan['family'] = gen_family(rng, n_roots=(1, 1), n_cond=(4, 7), n_rdm=(3, 5))
+        plan['family'] = gen_family(rng, n_roots=(1, 1), n_cond=(4, 7), n_rdm=(1, 5) if rng.chance(0.3) else (3, 5))
         plan['pre_ops'] = []
         plan['result'] = {'routine': rng.pick(['eval_fixed', 'eval_bootstrap_rdm', 'eval_bootstrap', 'crossval', 'bootstrap_crossval', 'eval_dual_bootstrap', 'eval_bootstrap_pattern']),
                           'models': [rng.pick(['fixed', 'weighted', 'select', 'interpolate']) for _ in range(rng.randint(1, 12 if rng.chance(0.06) else 3))],
@@ -61,7 +61,7 @@ def gen_plan(rng, tier, index):
             fault = None
             if rng.chance(0.2):
                 fault = rng.pick([['enospc_after', rng.pick([0, 10, 100, 600, 3000])], ['eio_on_write', rng.randint(1, 6)]])
-            fops.append({'op': 'save', 't': rng.randrange(1000), 'target': rng.wpick(TARGETS), 'ft': rng.pick(['hdf5', 'pkl']),
+            fops.append({'op': 'save', 't': rng.randrange(1000), 'target': rng.wpick(TARGETS), 'ft': rng.pick(['hdf5', 'pkl']), 'fd': rng.chance(0.3),
                          'overwrite': rng.chance(0.5), 'fault': fault, 'crash': rng.chance(0.5), 'p': rng.randrange(1000)})
         elif rng.chance(0.25):
             fops.append({'op': 'mutate', 't': rng.randrange(1000), 'seed': rng.randrange(10 ** 6)})
@@ -570,7 +570,7 @@ def _do_save(ctx, pool, fs, files, objs, kind, o):
         dest = fs.new_path(ext)
     elif target == 'handle':
         path = fs.new_path(ext)
-        handle = dest = fs.open_handle(path, 'w+b', fault=fault if ft == 'pkl' else None)
+        handle = dest = fs.open_handle(path, 'w+b', fault=fault if ft == 'pkl' else None, by_fd=bool(o.get('fd')) and not fault)
         entry = {'path': path, 'ft': ft, 'kind': kind, 'twin': None, 'handle': handle, 'crash': None,
                  'faulty_handle': bool(fault) and ft == 'pkl'}
         files.entries.append(entry)
